@@ -30,7 +30,7 @@ func TestVerif(t *testing.T) {
 		t.Fatal(err)
 	}
 	Rec = rec
-	InstallSink(rec, nil)
+	InstallSink(rec, CaptureHook)
 	switch *fMode {
 	case "scenarios":
 		f, err := os.Open(*fIn)
